@@ -100,6 +100,23 @@ func (e *Engine) callContract(fr *Frame, st *State, callee *ssa.Function, ct *Co
 		short = key[i+1:]
 	}
 	ord := e.ordinal("call " + short)
+	// a callee verified with the other integer semantics may be used only if the clauses the caller sees
+	// mean the same in both (no arithmetic: comparisons, lengths, constants, boolean structure only)
+	if ct.ModeSet && ct.Mode != e.ar.mode && !ct.Trusted {
+		for _, c := range ct.Requires {
+			if !modeAgnostic(c.Expr) {
+				unsupp("call to %s: callee contract is in %s mode and its clause %q uses arithmetic", key, ct.Mode, c.Src)
+			}
+		}
+		for _, c := range ct.Ensures {
+			if strings.HasPrefix(c.Label, "local-") {
+				continue
+			}
+			if !modeAgnostic(c.Expr) {
+				unsupp("call to %s: callee contract is in %s mode and its clause [%s] uses arithmetic; mark it local- or use one mode", key, ct.Mode, c.Label)
+			}
+		}
+	}
 	// ghost assertions of the caller's contract placed before this call: proved here, then assumed
 	if fr != nil && fr.top && e.contract != nil && e.quiet == 0 {
 		for i, aa := range e.contract.Asserts {
@@ -154,8 +171,8 @@ func (e *Engine) callContract(fr *Frame, st *State, callee *ssa.Function, ct *Co
 		}
 	}
 	// allocation
-	na := e.fresh(SInt, "alloc")
-	e.assume(Implies(st.guard, app(SBool, ">=", na, st.alloc)))
+	na := e.fresh(e.rs(), "alloc")
+	e.assume(Implies(st.guard, e.ridLe(st.alloc, na)))
 	st.alloc = na
 	var res Val
 	if rt != nil {
@@ -340,9 +357,9 @@ func (e *Engine) frameFormula(st *State, key string, slot Sort, quantified bool)
 	}
 	var r, i Term
 	if quantified {
-		r, i = Term{"r!q", SInt}, Term{"i!q", arrIdxSort(cur.Sort)}
+		r, i = Term{"r!q", e.rs()}, Term{"i!q", arrIdxSort(cur.Sort)}
 	} else {
-		r, i = e.fresh(SInt, "fr.r"), e.fresh(arrIdxSort(cur.Sort), "fr.i")
+		r, i = e.fresh(e.rs(), "fr.r"), e.fresh(arrIdxSort(cur.Sort), "fr.i")
 	}
 	var inSet []Term
 	for _, l := range e.modLocs {
@@ -353,7 +370,7 @@ func (e *Engine) frameFormula(st *State, key string, slot Sort, quantified bool)
 			inSet = append(inSet, And(Eq(r, l.Rid), a.idxLe(l.Lo, i), a.idxLt(i, l.Hi)))
 		}
 	}
-	body := Implies(And(app(SBool, "<", r, e.entry.alloc), app(SBool, ">=", r, IntLit(0)), Not(Or(inSet...))),
+	body := Implies(And(e.ridLt(r, e.entry.alloc), e.ridLe(e.ridLit(0), r), Not(Or(inSet...))),
 		Eq(Select(Select(cur, r), i), Select(Select(old, r), i)))
 	if quantified {
 		return Forall([]Term{r, i}, body, []Term{Select(Select(cur, r), i)})
@@ -365,4 +382,26 @@ func arrIdxSort(full Sort) Sort {
 	_, inner := arrSorts(full)
 	i, _ := arrSorts(inner)
 	return i
+}
+
+// modeAgnostic: the expression has the same meaning with mathematical and with machine integers.
+func modeAgnostic(x ast.Expr) bool {
+	ok := true
+	ast.Inspect(x, func(n ast.Node) bool {
+		switch b := n.(type) {
+		case *ast.BinaryExpr:
+			switch b.Op {
+			case token.ADD, token.SUB, token.MUL, token.QUO, token.REM, token.SHL, token.SHR, token.AND, token.OR, token.XOR, token.AND_NOT:
+				ok = false
+			}
+		case *ast.UnaryExpr:
+			if b.Op == token.SUB || b.Op == token.XOR {
+				if _, lit := b.X.(*ast.BasicLit); !lit {
+					ok = false
+				}
+			}
+		}
+		return ok
+	})
+	return ok
 }
